@@ -31,7 +31,7 @@ ALL_TAGS = ["v4", "v6", "sock.basic", "sock.buff", "sock.async", "send.ok", "sen
 EXHAUSTIVE = {"thorough": False}
 # "-> skipped" is an observation of this property (an unlimited ReceiveFrom on a socket that is not readable is not attempted),
 # not the framework's "-> skip <reason>" (environment trouble during set-up): without this a third of the cases was excluded unchecked
-SKIP_MARKER = "-> skip "
+SKIP_MARKER = "-> skip setup failed"
 SHRINK = True
 
 SIZES = [0, 0, 1, 1, 2, 3, 17, 17, 100, 100, 1472, 1473, 9000, 65507, 65508, 65527, 65528]
